@@ -5,6 +5,7 @@
   real event queue.
 -/
 import LccModel.Model.RunAccept
+import LccModel.Model.RunOutcome
 import LccModel.Generated.C11Tables
 
 namespace LccModel.Generated.C11
@@ -25,5 +26,16 @@ theorem skip_table_agrees : ∀ r ∈ skipTable, eval r.1 = r.2 := by decide +ke
 /-- the queue of the real `AsyncEventManager` is unbounded (`maxsize` 0), which is what the theorems of
     `Props/C11Events.lean` (`fire_never_blocks`, `close_never_blocks`, …) assume: `init none` -/
 theorem em_queue_is_unbounded : ∀ r ∈ emQueueBound, r.2 = 0 := by decide
+
+/-- Third table: the REAL `run_suites` executed on a small project with / without a reporting-backend failure and
+    with / without a keyboard interrupt (delivered before or after the failure); what the caller saw (returned
+    verdict, or the class of the raised error and whether it carries the backend's text) equals
+    `RunOutcome.outcome` of the facts of that run.  Row: ((interrupted, backend failed, report successful), outcome). -/
+def evalOutcome (r : Bool × Bool × Bool) : String :=
+  let (interrupted, failed, successful) := r
+  (RunOutcome.outcome { interrupted := interrupted, taskException := false,
+                        pending := if failed then some "T" else none, successful := successful }).name
+
+theorem run_outcome_table_agrees : ∀ r ∈ runOutcomeTable, evalOutcome r.1 = r.2 := by decide
 
 end LccModel.Generated.C11
